@@ -131,6 +131,7 @@ class Trace:
         self.undecided = []   # (test node, function name)
         self.seq = 0
         self.returns = {}     # function name -> [value]
+        self.call_values = {} # id(call node) -> value of the (last evaluation of the) call
         self.notes = []
 
     def tick(self):
@@ -240,11 +241,11 @@ class Config:
                             return (not r) if pos else r
             if op in ("Gt", "Lt", "GtE", "LtE"):
                 # size > 0 / 0 < size for a non-negative size whose truthiness is configured
-                if op == "Gt" and b.is_const() and b.const_value() == 0 and sym_name(a):
+                if op == "Gt" and b.is_const() and b.const_value() == 0 and not a.is_const():
                     return self.truth(a)
-                if op == "Lt" and a.is_const() and a.const_value() == 0 and sym_name(b):
+                if op == "Lt" and a.is_const() and a.const_value() == 0 and not b.is_const():
                     return self.truth(b)
-                if op == "LtE" and b.is_const() and b.const_value() == 0 and sym_name(a):
+                if op == "LtE" and b.is_const() and b.const_value() == 0 and not a.is_const():
                     r = self.truth(a)
                     return None if r is None else (not r)
         return None
@@ -252,7 +253,7 @@ class Config:
 
 # ------------------------------------------------------------------------------------------------ the evaluator
 class Opts:
-    def __init__(self, classes=(), exclude=(), erase_loop_index=False, models=None, max_depth=8, elem_hook=None, load_hook=None):
+    def __init__(self, classes=(), exclude=(), erase_loop_index=False, models=None, max_depth=8, elem_hook=None, load_hook=None, erase_T=True):
         self.classes = list(classes)        # [(file, class name)] in method resolution order
         self.exclude = set(exclude)         # call names that stay opaque
         self.erase_loop_index = erase_loop_index
@@ -260,6 +261,7 @@ class Opts:
         self.max_depth = max_depth
         self.elem_hook = elem_hook          # (iterable value) -> generic element value | NotImplemented
         self.load_hook = load_hook          # (ev, base value, index value | None) -> value | NotImplemented
+        self.erase_T = erase_T
 
 
 _TRIVIAL_INDEX = {"None", "np.newaxis", "numpy.newaxis", "Ellipsis"}
@@ -288,7 +290,7 @@ class PathEval(AutoEvaluator):
         self.depth = depth
         self.stack = tuple(stack) + (fn,)
         self.alias = {}
-        self.erase_T = True
+        self.erase_T = opts.erase_T
         self._cont = False
         self._brk = False
         mod = getattr(fn, "_vmod", None)
@@ -354,11 +356,18 @@ class PathEval(AutoEvaluator):
 
     # ---- indices
     def _index_value(self, sl):
+        """value of a subscript: axes that are inserted (None / np.newaxis / ...) are dropped, full slices keep their axis position, the counter
+        of a generic loop over the frequency axis is dropped with its axis when `erase_loop_index` is set.  What remains:
+            nothing                          -> None   (the whole array)
+            one selector on axis 0           -> the selector                       X[I], X[I, :]
+            one selector on axis k > 0       -> ax<k>(selector)                    X[:, M]
+            several                          -> tuple(per axis: selector or ':')   X[I, J]"""
         elts = sl.elts if isinstance(sl, ast.Tuple) else [sl]
-        keep = []
+        axes = []          # per remaining axis: a value, or None for a full slice
         for e in elts:
             if isinstance(e, ast.Slice):
                 if e.lower is None and e.upper is None and e.step is None:
+                    axes.append(None)
                     continue
                 parts = []
                 for p in (e.lower, e.upper, e.step):
@@ -369,7 +378,7 @@ class PathEval(AutoEvaluator):
                         if is_unknown(v) or isinstance(v, tuple):
                             raise Unsupported("slice bound")
                         parts.append(need(v))
-                keep.append(_mk_slice(*parts))
+                axes.append(_mk_slice(*parts))
                 continue
             v = self._ev(e)
             if is_unknown(v):
@@ -383,12 +392,16 @@ class PathEval(AutoEvaluator):
                 continue
             if self.opts.erase_loop_index and s in self.trace.loop_syms:
                 continue
-            keep.append(need(v))
-        if not keep:
+            axes.append(need(v))
+        while axes and axes[-1] is None:
+            axes.pop()
+        sel = [(k, v) for k, v in enumerate(axes) if v is not None]
+        if not sel:
             return None
-        if len(keep) == 1:
-            return keep[0]
-        return F.fn("tuple", *keep)
+        if len(sel) == 1:
+            k, v = sel[0]
+            return v if k == 0 else F.fn(f"ax{k}", v)
+        return F.fn("tuple", *[v if v is not None else F.sym(":") for v in axes])
 
     # ---- expressions
     def _ev(self, node):
@@ -401,7 +414,20 @@ class PathEval(AutoEvaluator):
             if is_unknown(base):
                 return base
             if isinstance(base, DictValue):
-                return super()._ev(node)
+                kv = self.ev(node.slice)
+                ks = sym_name(kv)
+                key = None
+                if ks is not None and len(ks) >= 2 and ks[0] in "'\"":
+                    try:
+                        key = ast.literal_eval(ks)
+                    except Exception:  # noqa
+                        key = None
+                elif kv is not None and not is_unknown(kv) and not isinstance(kv, (tuple, DictValue)) and kv.is_const():
+                    c = kv.const_value()
+                    key = int(c) if c.denominator == 1 else float(c)
+                if key is not None and key in base.d:
+                    return base.d[key]
+                return Unknown(f"key {ast.unparse(node.slice)} of a literal table")
             if isinstance(base, tuple):
                 r = super()._ev(node)
                 return r
@@ -424,6 +450,27 @@ class PathEval(AutoEvaluator):
                 s_ = sym_name(b)
                 if s_ is not None and s_ not in self.trace.idents and s_ != "None" and s_[:1] not in "'\"":
                     return F.sym(f"{s_}.{node.attr}")
+        if isinstance(node, ast.DictComp) and len(node.generators) == 1 and not node.generators[0].ifs:
+            g = node.generators[0]
+            items = self._literal_items(g.iter)
+            if items is None:
+                return Unknown("dict comprehension over a non-literal iterable")
+            saved = {n.id: self.env.get(n.id, NotImplemented) for n in ast.walk(g.target) if isinstance(n, ast.Name)}
+            out = {}
+            try:
+                for it in items:
+                    self._assign(g.target, it, node)
+                    ks = sym_name(self.ev(node.key))
+                    if ks is None or len(ks) < 2 or ks[0] not in "'\"":
+                        return Unknown("dict comprehension with a non-literal key")
+                    out[ast.literal_eval(ks)] = self.ev(node.value)
+            finally:
+                for k, v in saved.items():
+                    if v is NotImplemented:
+                        self.env.pop(k, None)
+                    else:
+                        self.env[k] = v
+            return DictValue(out)
         if isinstance(node, (ast.ListComp, ast.GeneratorExp)) and len(node.generators) == 1 and not node.generators[0].ifs:
             g = node.generators[0]
             saved = {n.id: self.env.get(n.id, NotImplemented) for n in ast.walk(g.target) if isinstance(n, ast.Name)}
@@ -454,7 +501,7 @@ class PathEval(AutoEvaluator):
     def _element(self, itv, counter):
         """the generic element of an iterable value"""
         if self.opts.elem_hook is not None:
-            r = self.opts.elem_hook(itv)
+            r = self.opts.elem_hook(itv, counter)
             if r is not NotImplemented:
                 return r
         if isinstance(itv, tuple) or is_unknown(itv):
@@ -489,6 +536,11 @@ class PathEval(AutoEvaluator):
         return None
 
     def _call(self, node):
+        r = self._call2(node)
+        self.trace.call_values[id(node)] = r
+        return r
+
+    def _call2(self, node):
         name = self._callee_name(node)
         m = self.opts.models.get(name)
         if m is not None:
@@ -671,12 +723,19 @@ class PathEval(AutoEvaluator):
             self.done = True
             return
         if isinstance(st, ast.If):
+            if _only_raises(st.body) and _only_raises(st.orelse) and not any(isinstance(x, ast.NamedExpr) for x in ast.walk(st.test)):
+                return          # an argument check: no effect on the values whichever way the test goes
             c = self.decide(st.test)
-            if c is None and not (_only_raises(st.body) and _only_raises(st.orelse)):
+            if c is None:
                 self.trace.undecided.append((st.test, self.fn.name))
             return super().stmt(st)
         if isinstance(st, ast.For) and not st.orelse:
             return self._for(st)
+        if isinstance(st, ast.While):
+            return self._while(st)
+        if isinstance(st, (ast.With, ast.Try, ast.For)):
+            # not lowered: whatever is computed inside is unknown to the rules
+            self.trace.undecided.append((st, self.fn.name))
         return super().stmt(st)
 
     def _for(self, st):
@@ -722,6 +781,27 @@ class PathEval(AutoEvaluator):
         self.run(st.body)
         self._cont = self._brk = False
 
+    def _while(self, st):
+        """a counted loop `while k < n: ...; k += 1`: evaluated once for a generic iteration with the counter a loop symbol"""
+        t = st.test
+        ctr = t.left.id if isinstance(t, ast.Compare) and isinstance(t.left, ast.Name) else None
+        incs = [x for x in ast.walk(st) if isinstance(x, ast.AugAssign) and isinstance(x.target, ast.Name) and x.target.id == ctr]
+        if ctr is None or len(incs) != 1 or incs[0] not in st.body or st.orelse:
+            self.trace.undecided.append((st.test, self.fn.name))
+            return super().stmt(st)
+        nm = self.trace.fresh(ctr)
+        self.trace.loop_syms.add(nm)
+        self.env[ctr] = F.sym(nm)
+        self._cont = self._brk = False
+        for s_ in st.body:
+            if s_ is incs[0]:
+                continue
+            if self.done or self._cont:
+                break
+            self.stmt(s_)
+        self._cont = self._brk = False
+        self.env[ctr] = F.sym(nm)
+
     def _assign(self, target, v, st, aug=False):
         if isinstance(target, ast.Subscript):
             base = target.value
@@ -741,8 +821,7 @@ class PathEval(AutoEvaluator):
                 ix = Unknown(str(e))
             self.trace.cells.append((ident, ix, v, st, self.trace.tick()))
             return
-        if isinstance(target, ast.Name) and isinstance(st, ast.Assign) and isinstance(st.value, ast.Call) and dotted(st.value.func) in _ARRAY_CTORS \
-                and any(t is target for t in st.targets):
+        if isinstance(target, ast.Name) and isinstance(st, ast.Assign) and _creates_array(st.value) and any(t is target for t in st.targets):
             # a new array: one identity, whoever fills it later (this function, or a helper it is handed to)
             i = self.trace.fresh(target.id)
             self.trace.init[i] = v
@@ -782,6 +861,15 @@ class PathEval(AutoEvaluator):
             if d and d not in self.pinned:
                 self.env[d] = v
             return
+
+
+def _creates_array(node):
+    """np.zeros(...) and friends, `[x] * n`: a new mutable container that is filled later"""
+    if isinstance(node, ast.Call) and dotted(node.func) in _ARRAY_CTORS:
+        return True
+    if isinstance(node, ast.BinOp) and isinstance(node.op, ast.Mult) and (isinstance(node.left, ast.List) or isinstance(node.right, ast.List)):
+        return True
+    return False
 
 
 def _mk_slice(lo, hi, step):
@@ -870,7 +958,7 @@ class _ForkConfig(Config):
         return d
 
 
-def enumerate_paths(ctx, fn, table, opts, limit=64):
+def enumerate_paths(ctx, fn, table, opts, limit=64, cfg_cls=None, env=None):
     """evaluate `fn` once per combination of the atomic tests the configuration leaves open; yields (decisions, trace)"""
     work = [[]]
     n = 0
@@ -879,7 +967,7 @@ def enumerate_paths(ctx, fn, table, opts, limit=64):
         n += 1
         if n > limit:
             raise Unsupported(f"more than {limit} paths through {fn.name}")
-        cfg = _ForkConfig(table, prefix, work)
-        ev = PathEval(fn, ctx, cfg, opts)
+        cfg = (cfg_cls or _ForkConfig)(table, prefix, work)
+        ev = PathEval(fn, ctx, cfg, opts, env=env)
         ev.run(fn.body)
         yield list(cfg.taken), ev.trace
